@@ -7,6 +7,7 @@ import (
 	"errors"
 	"io"
 	"math"
+	"sync"
 
 	jsonrpc "github.com/filecoin-project/go-jsonrpc"
 
@@ -553,4 +554,89 @@ func HarnessSequence() {
 	v3, e3 := c.Two(context.Background(), a1, "z")
 	verif.Assert(e3 != nil && v3 == "", "later-failure-still-reported")
 	verif.Reach("sequence-done")
+}
+
+// OH serves overlapping calls: every handler parks until released and only then
+// looks at its arguments.
+type OH struct {
+	mu      sync.Mutex
+	release chan struct{}
+	sawRaw  map[int64]string
+	sawArgs map[int64]string
+}
+
+func (h *OH) RawWait(ctx context.Context, p jsonrpc.RawParams) (int64, error) {
+	<-h.release
+	v, err := jsonrpc.DecodeParams[Inner](p)
+	if err != nil {
+		return -1, err
+	}
+	h.mu.Lock()
+	h.sawRaw[v.A] = v.S
+	h.mu.Unlock()
+	return v.A, nil
+}
+
+func (h *OH) ArgWait(ctx context.Context, a int64, s string) (int64, error) {
+	<-h.release
+	h.mu.Lock()
+	h.sawArgs[a] = s
+	h.mu.Unlock()
+	return a, nil
+}
+
+type OC struct {
+	RawWait func(ctx context.Context, p jsonrpc.RawParams) (int64, error)
+	ArgWait func(ctx context.Context, a int64, s string) (int64, error)
+}
+
+// HarnessOverlappingCalls: two calls overlap on one WebSocket connection; the
+// handler of the first is still running (and has not looked at its arguments yet)
+// when the second request arrives. Each handler sees the round trip of its own
+// arguments, whatever the relative lengths of the two argument lists.
+func HarnessOverlappingCalls() {
+	h := &OH{release: make(chan struct{}), sawRaw: map[int64]string{}, sawArgs: map[int64]string{}}
+	srv := jsonrpc.NewServer()
+	srv.Register("NS", h)
+	url, stop := verif.ServeWS(srv)
+	var c OC
+	closer, err := jsonrpc.NewMergeClient(context.Background(), url, "NS", []interface{}{&c}, nil)
+	verif.Assert(err == nil, "client-created")
+	raw := verif.Bool("raw_params")
+	s1 := "the-first-call" + verif.String("s1", 1)
+	s2 := "second" + verif.String("s2", 1)
+	if verif.Bool("second_longer") {
+		s1, s2 = s2, s1
+	}
+	rets := [2]int{}
+	call := func(i int, a int64, s string) {
+		var v int64
+		var err error
+		if raw {
+			rawArg, _ := jsonMarshal(Inner{A: a, S: s})
+			v, err = c.RawWait(context.Background(), jsonrpc.RawParams(rawArg))
+		} else {
+			v, err = c.ArgWait(context.Background(), a, s)
+		}
+		if err == nil && v == a {
+			rets[i]++
+		}
+	}
+	go call(0, 1, s1)
+	verif.Quiesce() // the first handler is parked
+	go call(1, 2, s2)
+	verif.Quiesce() // so is the second
+	close(h.release)
+	verif.Quiesce()
+	verif.Assert(rets[0] == 1 && rets[1] == 1, "both-calls-return-their-own-results")
+	saw := h.sawArgs
+	if raw {
+		saw = h.sawRaw
+	}
+	verif.Assert(saw[1] == s1, "first-handler-sees-its-own-arguments")
+	verif.Assert(saw[2] == s2, "second-handler-sees-its-own-arguments")
+	closer()
+	stop()
+	verif.Quiesce()
+	verif.Reach("overlapping-calls-done")
 }
